@@ -165,9 +165,11 @@ the same order, same rows.  Hypotheses `SplitHyp`: well-formed table with a
 temporal key, `<` a strict weak order, requested variable names pairwise
 distinct and not temporal names, requested estimators return scalars, array
 rank constant along each column, and the C01 hypothesis `FeedbackOK`: for
-every row `r` and every list `x` of entries `(name, value computed from r)` of
-requested items, `comp (r ++ x) = comp r` and `cust f (r ++ x) = cust f r` on
-the requested items. -/
+every row `r` of `t` and every list `x` of entries `(name, value computed
+from r)` of items the request actually computes (valid, not yet in `t`),
+`comp (r ++ x) name = comp r name` and `cust f (r ++ x) = cust f r` for those
+items — i.e. a column computed by an earlier call and handed back to the
+fresh `AurelCore` as frozen input does not change what is computed later. -/
 theorem split_invariance (E : Env C) {t : Table C} {n : Nat} {tk : Name}
     (calls : List (List Req × List Req)) (hc : Consecutive calls)
     (H : SplitHyp E t n tk (calls.flatMap (·.1)) (calls.flatMap (·.2))) :
@@ -206,8 +208,9 @@ theorem splitHyp_t1 : SplitHyp E1 t1 3 "it" [.name "K"] [.name "max"] where
   notemp := by decide
   fb := by
     intro r hr x _ c hc
-    simp only [reqItems, reqItem, List.flatMap_cons, List.flatMap_nil, List.append_nil,
-      List.mem_singleton] at hc
+    have hcl : cleanVars E1 t1 [.name "K"] = [.name "K"] := by decide +kernel
+    rw [hcl] at hc
+    simp only [List.mem_singleton] at hc
     subst hc
     have ha : "a" ∈ keys r := by
       rw [rows_t1] at hr
@@ -222,8 +225,9 @@ theorem splitHyp_t1 : SplitHyp E1 t1 3 "it" [.name "K"] [.name "max"] where
        rcases hc with rfl | rfl | rfl <;> rcases hc' with rfl | rfl | rfl <;> rfl)
   rank_v := by
     intro r hr r' hr' c hc
-    simp only [reqItems, reqItem, List.flatMap_cons, List.flatMap_nil, List.append_nil,
-      List.mem_singleton] at hc
+    have hcl : cleanVars E1 t1 [.name "K"] = [.name "K"] := by decide +kernel
+    rw [hcl] at hc
+    simp only [List.mem_singleton] at hc
     subst hc
     rw [rows_t1] at hr hr'
     simp only [List.mem_cons, List.mem_nil_iff, or_false] at hr hr'
@@ -303,6 +307,21 @@ example : runCalls E1 t1 [([.name "K"], []), ([], [.name "max"])] = overTime E1 
 /-- the hypotheses of `estimates` are met for `(a, max)` on the instance -/
 example : CReq.name "max" ∈ cleanedEsts E1 t1 (cleanVars E1 t1 [.name "K"]) [.name "max"]
     ∧ "a" ∈ callSk E1 t1 [.name "K"] ∧ "K" ∈ callSk E1 t1 [.name "K"] := by decide +kernel
+
+/-- `estimates` applies to the computed scalar `K` and the estimator `max` on the instance -/
+example : ∃ out col, overTime E1 t1 [.name "K"] [.name "max"] = .ok out ∧ get? "K" out = some col ∧
+    get? "K_max" out = some (col.map (estApply E1 (.name "max"))) :=
+  estimates E1 wf_t1 (by decide) (tk := "it") (by decide +kernel) (by decide +kernel)
+    (e := .name "max") (k := "K") (by decide +kernel) (by decide +kernel) (by decide +kernel)
+    (by decide +kernel) (by decide +kernel)
+
+/-- `per_step_builtin` on the instance: the request contains built-in names only -/
+example : ∃ out, overTime E1 t1 [.name "K"] [] = .ok out ∧
+    ∀ s, CReq.name s ∈ cleanVars E1 t1 [.name "K"] →
+      get? s out = some ((sortP E1 "it" (rowsOf t1 3)).map (fun r => E1.comp r s)) :=
+  per_step_builtin E1 wf_t1 (by decide) (by decide +kernel) (by decide +kernel) (by
+    have : cleanVars E1 t1 [.name "K"] = [.name "K"] := by decide +kernel
+    rw [this]; intro v hv; exact ⟨"K", by simpa using hv⟩)
 
 /-- ties: equal temporal cells keep their input order (stability) -/
 example : overTime E1 [("it", [1, 0, 1, 0]), ("a", [10, 11, 12, 13])] [.name "K"] []
